@@ -155,7 +155,7 @@ def work(item):
         trees = _CACHE.setdefault(mk, E.all_trees(mk))
         values = VAL.V + VAL.V_OBJ
         for label, factory in trees[item[1]:item[2]]:
-            explore_tree(st, label, factory, values, PAIR_IDX_DSL if not label.split("(")[0] in E.CLASSES or _TIER[0] == "thorough" else PAIR_IDX_DSL[::3])
+            explore_tree(st, label, factory, values, PAIR_IDX_DSL if not label.split("(")[0] in E.CLASSES else (PAIR_IDX_DSL[::2] if _TIER[0] == "thorough" else PAIR_IDX_DSL[::3]))
             if st.c["states"] % 41 == 1:
                 st.sample({"tree": label, "calls": len(values)})
         # parent observed while only the child is used
@@ -172,7 +172,7 @@ def work(item):
                 continue
             values = list(values)
             nv = len(values)
-            step = 4 if (_TIER[0] == "thorough" or item[1][0] in ("d1", "objcore")) else 11
+            step = 4 if item[1][0] in ("d1", "objcore") else (7 if _TIER[0] == "thorough" else 11)
             explore_tree(st, json.dumps(schema, sort_keys=True), f, values, list(range(0, nv, step)))
             if st.c["states"] % 1499 == 1:
                 st.sample({"schema": schema, "calls": len(values)})
